@@ -558,59 +558,18 @@ func runC13(c *Ctx) {
 func (c *Ctx) stickyRule(scannerT *types.TypeName) {
 	refill := c.method("postscript", "scanner", "refill")
 	fname := c.fname(refill)
-	// (i) first test: s.err != nil → return s.err
-	entry := refill.Blocks[0]
-	ok1 := false
-	if ifi, ok := entry.Instrs[len(entry.Instrs)-1].(*ssa.If); ok {
-		if m, ok := asCmp(cond{ifi.Cond, true, entry}); ok && m.op == token.NEQ && isFieldLoad(m.x, scannerT, c.fld("scanner.err")) && isNilConst(m.y) {
-			tb := entry.Succs[0]
-			if r, ok := tb.Instrs[len(tb.Instrs)-1].(*ssa.Return); ok && isFieldLoad(r.Results[0], scannerT, c.fld("scanner.err")) {
-				ok1 = true
-			}
-		}
-	}
-	// no read before that test
-	for _, ins := range entry.Instrs {
-		if call, ok := ins.(ssa.CallInstruction); ok && call.Common().IsInvoke() {
-			ok1 = false
-		}
-	}
-	c.check(ok1, "IO-STICKY", fname, "refill returns the stored error before reading", refill.Pos(), "if s.err != nil { return s.err } is the first thing refill does", "refill does not begin by returning the stored read error: a fault could be followed by further reads that hide it")
-	// (ii) every error of src.Read is stored; (iv) err field never cleared and written nowhere else
-	var stores []*ssa.Store
+	c.refillRules("", "IO-STICKY")
+	// the sticky field is written nowhere but in refill
+	okOnly := true
+	whyOnly := ""
 	for _, f := range c.modFuncs {
 		eachInstr(f, func(ins ssa.Instruction) {
-			if st, ok := ins.(*ssa.Store); ok && isFieldAddr(st.Addr, scannerT, c.fld("scanner.err")) {
-				stores = append(stores, st)
+			if st, ok := ins.(*ssa.Store); ok && isFieldAddr(st.Addr, scannerT, c.fld("scanner.err")) && st.Parent() != refill {
+				okOnly, whyOnly = false, "the scanner's stored read error is written outside refill at "+c.pos(st.Pos())
 			}
 		})
 	}
-	okStore := len(stores) > 0
-	why := "the scanner never stores a read error"
-	for _, st := range stores {
-		if st.Parent() != refill {
-			okStore, why = false, "scanner.err is written outside refill at "+c.pos(st.Pos())
-			continue
-		}
-		// stored value is the error of the Read, under err != nil
-		ex, ok := st.Val.(*ssa.Extract)
-		isRead := false
-		if ok {
-			if call, ok := ex.Tuple.(*ssa.Call); ok && call.Common().IsInvoke() && call.Common().Method.Name() == "Read" {
-				isRead = true
-			}
-		}
-		guarded := false
-		for _, cd := range domConds(st.Block()) {
-			if m, ok := asCmp(cd); ok && m.op == token.NEQ && m.x == st.Val && isNilConst(m.y) {
-				guarded = true
-			}
-		}
-		if !isRead || !guarded {
-			okStore, why = false, "the store to scanner.err at "+c.pos(st.Pos())+" is not `if err != nil { s.err = err }` on the result of src.Read"
-		}
-	}
-	c.check(okStore, "IO-STICKY", fname, "every read error is stored, never cleared", refill.Pos(), fmt.Sprintf("%d store(s), all `s.err = err` under err != nil in refill", len(stores)), why)
+	c.check(okOnly, "IO-STICKY", fname, "the stored error is written only by refill", refill.Pos(), "", whyOnly)
 	// the only direct Read on the source is in refill
 	n := 0
 	scannerFuncs := 0
